@@ -13,15 +13,40 @@ RULE = ('every generated workload (appends, batch appends, reads, clean/dirty ma
         'of the in-flight operation\'s entries, nothing else. non-trivial = crash reached and >= 1 acknowledged entry; distinct = '
         'distinct (workload, crash point)')
 
+def fixed_workloads():
+    """a topic whose first operation only allocates a block (empty / rejected batch), acknowledged data of another topic physically behind that
+    block, then the first real entries of the first topic - on both backends, with and without a rotation"""
+    out = []
+    for be in ('fd', 'mmap'):
+        for first in ('empty', 'over-cap'):
+            ops = [['open', {'h': 1}]]
+            if first == 'empty':
+                ops.append(['batch', {'t': 'a', 'entries': [], 'expect': 'any'}])
+            else:
+                ops.append(['batch', {'t': 'a', 'entries': [[900, 16]], 'rep': 2001, 'expect': 'err'}])
+            tag = 0
+            for ln in (100, 3000, 40):
+                tag += 1
+                ops.append(['append', {'t': 'b', 'tag': tag, 'len': ln}])
+            ops.append(['batch', {'t': 'b', 'entries': [[10, 64], [11, 500]]}])
+            for ln in (200, 17, 6_000_000, 5_000_000):
+                tag += 1
+                ops.append(['append', {'t': 'a', 'tag': 20 + tag, 'len': ln}])
+            ops.append(['rn', {'t': 'b', 'cp': True}])
+            ops.append(['append', {'t': 'b', 'tag': 40, 'len': 128}])
+            params = {'mode': 'strict', 'sched': 'none', 'backend': be, 'via': 'builder', 'key': 'k'}
+            out.append(({'instances': {1: dict(params)}, 'ops': ops, 'features': ['fixed:alloc-only-first']}, params))
+    return out
+
 def run(tier, seed, budget):
     q = tier == 'quick'
-    rep = crashfam.run_family('C07', tier, seed, budget, PROFILE, n_workloads=12 if q else 150, max_points=55 if q else 400,
+    rep = crashfam.run_family('C07', tier, seed, budget, PROFILE, n_workloads=10 if q else 150, max_points=50 if q else 400,
                               batch_subsets=6 if q else 24, rule=RULE,
                               required={'crash_points': 250, 'crash_points:main': 120, 'crash_points:clean': 5, 'crash_at_event:write': 40,
-                                        'crash_at_event:create': 3, 'crash_at_event:rename': 5, 'in_flight_op:append': 20, 'in_flight_op:batch': 10},
+                                        'crash_at_event:create': 3, 'crash_at_event:rename': 5, 'in_flight_op:append': 20, 'in_flight_op:batch': 10, 'fixed_workloads': 4},
                               assumptions=['process-crash model: _exit at the hook before the named I/O; completed syscalls and stores into MAP_SHARED mappings persist',
                                            'crash points of the persister/background thread classes are timing dependent relative to the API thread'],
-                              profiles=('debug',) if q else ('debug', 'release'))
+                              profiles=('debug',) if q else ('debug', 'release'), fixed=fixed_workloads())
     return rep.finish()
 
 def replay(path):
